@@ -2195,6 +2195,8 @@ class StateEngine(object):
                         return next
 
                 def asl_choice_BooleanEquals(value):
+                    if path_match_failed:  # variable holds the False sentinel
+                        return None
                     return next_if(variable, operator.eq, value, bool)
 
                 def asl_choice_NumericEquals(value):
